@@ -2073,22 +2073,71 @@ Proof.
     intros k1 y H1 H2 H3. apply (Hu k1 y); simpl; auto.
 Qed.
 
-(* T02k_move_static_redirect: a static method x of class k that the rule moves (new name n) becomes a
-   module-level function n with the parameters and the (redirected) body of x; n is bound by nothing else
-   (no other function, no stored name), so every redirected access `C.m(args)` / `C().m(args)` / `self.m(args)`
-   -> `n(args)` reaches that body with the same arity test and no first argument, as the static method did. *)
+(* cca2e92: what a pass moves (ms_moved) is a part of the plan, chosen by processing's transaction scheduler *)
+Lemma plan_find_in' pl c m n :
+  (forall n', In ((c, m), n') pl -> n' = n) ->
+  In ((c, m), n) pl -> plan_find pl c m = Some n.
+Proof.
+  induction pl as [|[[c' m'] n'] tl IH]; simpl; intros Hu Hin; [contradiction|].
+  destruct (Nat.eqb c c' && Nat.eqb m m') eqn:E.
+  - apply andb_true_iff in E. destruct E as [E1 E2]. apply Nat.eqb_eq in E1. apply Nat.eqb_eq in E2. subst.
+    f_equal. apply Hu. left. reflexivity.
+  - destruct Hin as [Hin|Hin].
+    + inversion Hin; subst. rewrite !Nat.eqb_refl in E. discriminate.
+    + apply IH; auto.
+Qed.
+Lemma sched_go_incl cands : forall sch c, In c (sched_go cands sch) -> In c sch \/ In c cands.
+Proof.
+  induction cands as [|c0 tl IH]; simpl; intros sch c H; [left; exact H|].
+  apply IH in H. destruct H as [H|H]; [|right; right; exact H].
+  destruct (conflicts c0 sch); [left; exact H|].
+  apply in_app_or in H. destruct H as [H|[H|[]]]; [left; exact H | right; left; exact H].
+Qed.
+Lemma ms_cands_plan M pl key n B : In (key, n, B) (ms_cands M pl) -> In (key, n) pl.
+Proof.
+  unfold ms_cands. intros H. apply in_flat_map in H. destruct H as [k [_ H]].
+  apply in_flat_map in H. destruct H as [x [_ H]].
+  destruct (plan_find pl (c_name k) (m_name x)) as [n'|] eqn:E; [|contradiction].
+  destruct H as [H|[]]. inversion H; subst. apply plan_find_some. exact E.
+Qed.
+Lemma ms_sched_incl M pl e : In e (ms_sched M pl) -> In e pl.
+Proof.
+  unfold ms_sched. intros H. apply in_map_iff in H. destruct H as [[[key n] B] [E H]]. subst e.
+  apply sched_go_incl in H. destruct H as [[]|H]. eapply ms_cands_plan; eauto.
+Qed.
+(* methods whose bodies access no other planned method never conflict: the whole plan is scheduled *)
+Lemma sched_go_free cands : forall sch,
+  (forall c, In c cands -> snd c = []) -> (forall c, In c sch -> snd c = []) -> sched_go cands sch = sch ++ cands.
+Proof.
+  induction cands as [|c0 tl IH]; simpl; intros sch Hc Hs; [rewrite app_nil_r; reflexivity|].
+  assert (E : conflicts c0 sch = false).
+  { destruct c0 as [[key n] B]. pose proof (Hc _ (or_introl eq_refl)) as HB. simpl in HB. subst B.
+    unfold conflicts. apply not_true_is_false. intros H. apply existsb_exists in H.
+    destruct H as [[[key' n'] B'] [Hin H]]. pose proof (Hs _ Hin) as HB'. simpl in HB'. subst B'.
+    unfold pair_mem in H. simpl in H. discriminate. }
+  rewrite E, IH.
+  - rewrite <- app_assoc. reflexivity.
+  - intros c Hin. apply Hc. right. exact Hin.
+  - intros c Hin. apply in_app_or in Hin. destruct Hin as [Hin|[Hin|[]]]; [apply Hs; exact Hin | subst c; apply Hc; left; reflexivity].
+Qed.
+
+(* T02k_move_static_redirect: a static method x of class k that a pass of the rule moves (new name n: an entry of
+   ms_moved, the scheduled part of the plan) becomes a module-level function n with the parameters and the (redirected)
+   body of x; n is bound by nothing else (no other function, no stored name), so every redirected access `C.m(args)` /
+   `C().m(args)` / `self.m(args)` -> `n(args)` reaches that body with the same arity test and no first argument, as the
+   static method did. *)
 Theorem move_static_redirect M k x n :
   uniq_cls M = true -> uniq_meths M = true -> nodup_names (map snd (ms_plan M)) = true ->
   In k (classes M) -> c_base k = None -> In x (c_meths k) -> ms_new_name M k x = Some n ->
+  In ((c_name k, m_name x), n) (ms_moved M) ->
   m_kind x = KStatic /\
-  resolve (ms_pass M) SNone None RMod n = TFn (moved_fn (ms_plan M) k x n) /\
-  f_params (moved_fn (ms_plan M) k x n) = m_params x /\
-  f_body (moved_fn (ms_plan M) k x n) = map (ms_act (ms_plan M) (Some (c_name k))) (m_body x).
+  resolve (ms_pass M) SNone None RMod n = TFn (moved_fn (ms_moved M) k x n) /\
+  f_params (moved_fn (ms_moved M) k x n) = m_params x /\
+  f_body (moved_fn (ms_moved M) k x n) = map (ms_act (ms_moved M) (Some (c_name k))) (m_body x).
 Proof.
-  intros Hu Hm Hnd Hk Hb Hx Hn.
+  intros Hu Hm Hnd Hk Hb Hx Hn Hmv.
   destruct (ms_new_name_facts M k x n Hn) as [Hkind [Hfresh _]].
   split; [exact Hkind|]. split; [|split; reflexivity].
-  pose proof (plan_in M k x n Hk Hb Hx Hn) as Hin.
   assert (Hkey : forall c m n1 n2, In ((c, m), n1) (ms_plan M) -> In ((c, m), n2) (ms_plan M) -> n1 = n2).
   { intros c m n1 n2 H1 H2.
     destruct (plan_inv M c m n1 H1) as [k1 [x1 [Hk1 [_ [Hx1 [Ec1 [Em1 Hn1]]]]]]].
@@ -2098,23 +2147,37 @@ Proof.
     { eapply (nodup_names_inj m_name); eauto; [|congruence]. unfold uniq_meths in Hm.
       rewrite forallb_forall in Hm. apply Hm. exact Hk1. }
     subst x2. congruence. }
-  assert (Hpf : plan_find (ms_plan M) (c_name k) (m_name x) = Some n).
-  { apply plan_find_in; auto. intros n' Hn'. eapply Hkey; eauto. }
-  unfold resolve, ms_pass. rewrite Hnd. cbn [m_stores m_items].
+  pose proof (plan_in M k x n Hk Hb Hx Hn) as Hin.
+  assert (Hpf : plan_find (ms_moved M) (c_name k) (m_name x) = Some n).
+  { apply plan_find_in'; auto. intros n' Hn'. eapply Hkey; [|exact Hin]. apply (ms_sched_incl M). exact Hn'. }
+  unfold resolve, ms_pass. rewrite Hnd. cbn [m_stores m_items]. fold (ms_moved M).
   assert (Hsplit : nmem n (map f_name (funcs M)) = false /\ nmem n (m_stores M) = false).
   { unfold static_names, nmem in Hfresh. rewrite existsb_app in Hfresh. apply orb_false_iff in Hfresh. exact Hfresh. }
   destruct Hsplit as [Hf1 Hf2]. rewrite Hf2.
-  rewrite (ms_items_find (ms_plan M) (m_items M) k x n); auto.
+  rewrite (ms_items_find (ms_moved M) (m_items M) k x n); auto.
   - apply in_classes. exact Hk.
   - intros g Hg En. assert (nmem n (map f_name (funcs M)) = true); [|congruence].
     apply nmem_In. apply in_map_iff. exists g. split; [exact En|]. unfold funcs. apply in_flat_map.
     exists (IFunc g). split; [exact Hg|left; reflexivity].
-  - intros k0 y Hk0 Hy Hp0. apply plan_find_some in Hp0. apply in_classes in Hk0.
+  - intros k0 y Hk0 Hy Hp0. apply plan_find_some in Hp0. apply (ms_sched_incl M) in Hp0. apply in_classes in Hk0.
     assert (Ekey : (c_name k0, m_name y) = (c_name k, m_name x)) by (eapply nodup_snd_inj; eauto).
     inversion Ekey as [[E1 E2]].
     assert (k0 = k) by (eapply (nodup_names_inj c_name); eauto). subst k0. split; [reflexivity|].
     eapply (nodup_names_inj m_name); eauto. unfold uniq_meths in Hm. rewrite forallb_forall in Hm. apply Hm. exact Hk.
 Qed.
+
+Lemma ms_moved_planned M e : In e (ms_moved M) -> In e (ms_plan M).
+Proof. exact (ms_sched_incl M (ms_plan M) e). Qed.
+
+(* two static methods, the first reads the second through `self` (an unbound name in a static method): both are
+   planned; the transaction of the second overlaps the removal of the first and is discarded; afterwards `self.m2`
+   is no recognised access any more, so m2 stays for good.  Before cca2e92 every access was redirected. *)
+Example move_static_schedule :
+  let M := mkMod [IClass (mkCls 1 None [mkMeth 3 KStatic 1 [ACall RSelf 1 0]; mkMeth 1 KStatic 0 [AEv 3]] [])] [] []
+                 [ACall (RCls 1) 1 0] in
+  map fst (ms_plan M) = [(1, 3); (1, 1)]%nat /\ map fst (ms_moved M) = [(1, 3)]%nat
+  /\ ms_model M = ms_pass M /\ ms_pass_old M <> ms_pass M.
+Proof. repeat split; try reflexivity. vm_compute. discriminate. Qed.
 
 Lemma find_meth_nodup l y :
   nodup_names (map m_name l) = true -> In y l -> find_meth l (m_name y) = Some y.
